@@ -79,11 +79,11 @@ def export_diff(e1, e2, mult=1.0):
 
 class E4Session(SessionBase):
     ENGINE = 'e4'
-    PATH = os.path.abspath('design.json')
 
     def __init__(self, world, props, known=None):
         super().__init__(world, props, known)
         self.disk = SimDisk()
+        self.PATH = self.disk.path('design.json')
         self.sim_doc = None
         self.equipment = None
         self.network = None
@@ -221,8 +221,8 @@ class E4Session(SessionBase):
             raise Violation('C17', 'export-changed-the-network', kind)
         self._check_sim('after export')
         if kind == 'ok':
-            self.content_key[jdigest(self.disk.durable[self.PATH])] = jdigest(self.sim_doc)
-            written = json.loads(self.disk.durable[self.PATH])
+            self.content_key[jdigest(self.disk.read(self.PATH))] = jdigest(self.sim_doc)
+            written = json.loads(self.disk.read(self.PATH))
             if written != json.loads(json.dumps(before)):
                 raise Violation('C17', 'file-differs-from-exported-network', doc_diff(before, written) or '')
         return {'kind': kind}
@@ -250,14 +250,14 @@ class E4Session(SessionBase):
                 self.st.faults['disk_' + self.disk.fired] += 1
             return {'kind': f'load-oserror:{type(e).__name__}'}
         except Exception as e:      # noqa: includes libyang's validation error, JSON errors, loader rejections
-            content = self.disk.durable.get(self.PATH)
+            content = self.disk.read(self.PATH)
             if content in self.disk.completed.get(self.PATH, []):
                 raise Violation('C17', 'completed-export-cannot-be-reloaded', repr(e)[:300])
             self.st.probes['damaged_file_rejected_loudly'] += 1
             return {'kind': f'load-rejected:{type(e).__name__}'}
         finally:
             self.disk.disarm()
-        content = self.disk.durable[self.PATH]
+        content = self.disk.read(self.PATH)
         if content not in self.disk.completed.get(self.PATH, []):
             raise Violation('C17', 'reload-accepted-a-file-no-export-completed', f'{len(content)} bytes')
         if self.content_key.get(jdigest(content)) != jdigest(self.sim_doc):
@@ -428,8 +428,11 @@ class E4Session(SessionBase):
     def finish(self):
         TAP.reset()
         gn.reset_process_globals()
+
+    def cleanup(self):
         import builtins
         json_io.open = builtins.open
+        self.disk.destroy()
 
 
 # --------------------------------------------------------------------------------------------------------------
